@@ -96,6 +96,15 @@ pub fn gen_body(rng: &mut Rng) -> Vec<u8> {
     if rng.chance(1, 8) {
         s.extend_from_slice(b"data: tail-without-newline");
     }
+    // the stream may end anywhere: mid-event, mid-line, mid-terminator; and with a lone CR, which
+    // the end-of-stream flush completes into a blank line (the only way `finish` dispatches)
+    if rng.chance(1, 6) && !s.is_empty() {
+        let cut = rng.below(s.len() as u64 + 1) as usize;
+        s.truncate(cut);
+    }
+    if rng.chance(1, 10) {
+        s.push(b'\r');
+    }
     // sprinkle invalid UTF-8
     if rng.chance(1, 3) && !s.is_empty() {
         let k = rng.range(1, 3);
